@@ -155,6 +155,12 @@ def replay_C11(ctx, path):
 
 
 # ----------------------------------------------------------------------------------------
+ARENA_C12 = dict(
+    x=['chunk-smaller-than-twice-its-predecessor-less-16', 'chunk-size-not-multiple-of-16', 'chunk-outside-granted-block',
+       'reserve-did-not-provide-capacity'],
+    mism=['base-allocator-events'])
+
+
 def check_C12(ctx):
     target = 'Properties/C12'
     ctx.regen()
@@ -204,7 +210,14 @@ def check_C12(ctx):
                                      % (summary['gen_vs_impl'], next((l for _, l in mism if 'gen_vs_impl' in l), ''))))
             if summary.get('model_nofit'):
                 ctx.problems.append(('model', 'the specification itself produced a fresh chunk that does not fit (contradicts the theorem: stale build?)'))
+            # the composition around the translated functions (raw_bump.rs: grow_size, append_for, NonDummyChunk::new;
+            # chunk/size.rs) is hand-modelled in Arena.v: the growth and fit clauses are also decided on arena histories
+            ares = run_arena(ctx, 160 if ctx.tier == 'quick' else 3000, 50, seeds, binname='arena')
+            if ares is not None:
+                arena_verdict(ctx, 'C12', ares, ARENA_C12)
+                summary['arena_steps'] = ares['summary']['steps']
             ctx.cov.update({
+                'arena_histories': {'steps': summary.get('arena_steps', 0), 'monitors': ARENA_C12['x'], 'compared_with_model': ARENA_C12['mism']},
                 'evaluations': summary['cases'],
                 'distinct_nontrivial': summary.get('distinct_lines', 0),
                 'rule': 'random header layouts derived from allocator value layouts (size 0..256, align 1..256), layouts with sizes around powers of two / page multiples / the isize limit, alignments up to 2^63 (2^29 for the fresh-chunk cases), hints up to 2^64-1; kinds: H=calc_hint_from_capacity, Z=calc_size_from_hint, A=align_size, F=whole fresh-chunk path (hint, max with 2*prev and minimum chunk size, size, granted = size+extra, usable = align_size, then the REAL bump_up/bump_down/prepare on the fresh range for all three LayoutProps classes); debug and release builds; distinct = distinct trace lines',
@@ -286,7 +299,7 @@ ARENA.update({
         x=['prepare-moved-a-bump-position', 'try-with-mut-panic-moved-a-position', 'try-with-mut-panic', 'prepared-capacity-smaller-than-requested', 'committed-slice-lost-contents',
            'commit-advanced-position-by-more-than-contents-plus-padding', 'block-contents-changed', 'live-blocks-overlap', 'panic'],
         mism=['prepared-range', 'result-block', 'block-contents', 'stats'],
-        colls_x=['helpers: position moved'],
+        colls_x=['helpers: position moved', 'regrow:'],
         note='prepare/fill/commit primitives (typed+dyn, forward+reverse) proved incl. invariant preservation and prepare => commit contract; every SEQUENCE of prepare / write steps keeps all chunks up to the original current one unchanged and leaves at most a later, empty chunk current (ArenaFill.v); the growth policy is the capacity model of C08 (VecCap.v, MutBumpVec(Rev) included); PARTIAL: iterator size hints and the *_mut helpers on top are exercised on the implementation'),
     'C17': dict(
         x=['panic', 'block-misaligned', 'live-blocks-overlap', 'entry-points-differ'],
@@ -495,12 +508,14 @@ def check_arena(ctx):
                 if rc_ is not None:
                     for (b, case, xl) in rc_['implx']:
                         if any(k in xl for k in conf['colls_x']):
-                            hist = case if (case and case.startswith('V ') and 'cap history' in xl) else None
+                            hist = case if (case and ((case.startswith('V ') and 'cap history' in xl) or (case.startswith('G ') and 'gaps case' in xl))) else None
                             ctx.violations.append({'kind': 'colls-case' if hist else 'colls-probe', 'build': b, 'case': hist, 'what_fails': xl,
                                                    'signature': 'colls:' + re.sub(r'[0-9]+', 'N', xl)[:80]})
                     for (b, rc, case, err) in rc_.get('crashes', []):
+                        if pid not in ('C07', 'C15'):
+                            continue
                         ctx.violations.append({'kind': 'colls-case', 'build': b, 'case': case,
-                                               'what_fails': 'the process died (exit status %d: %s) while the crate executed this capacity history of a BumpVec / FixedBumpVec through its safe API' % (rc, err.strip()[-120:]),
+                                               'what_fails': 'the process died (exit status %d: %s) while the crate executed this capacity history / probe case through its safe API' % (rc, err.strip()[-120:]),
                                                'signature': 'colls:crash-in-capacity-history'})
                     relm = [(b, l) for (b, l) in rc_['mism'] if any(k in l for k in conf.get('colls_mism', []))]
                     if relm and not ctx.violations:
@@ -590,12 +605,16 @@ def run_colls(ctx, cases, seeds, inputs_file=None, binname='colls', prefix='C ')
                         for l in f:
                             if l.startswith('VB '):
                                 inflight = l.rstrip('\n')
-                            elif l.startswith('V '):
+                            elif l.startswith('GB '):
+                                inflight = 'VB G ' + l.rstrip('\n')[3:]
+                            elif l.startswith('SB '):
+                                inflight = 'VB S ' + l.rstrip('\n')[3:]
+                            elif l.startswith('V ') or l.startswith('G ') or l.startswith('S '):
                                 inflight = None
                 except OSError:
                     pass
-                if inflight and binname == 'colls':
-                    res.setdefault('crashes', []).append((b, rc, 'V ' + inflight[3:], out[-300:]))
+                if inflight and binname in ('colls', 'strs'):
+                    res.setdefault('crashes', []).append((b, rc, inflight[3:] if (inflight.startswith('VB G ') or inflight.startswith('VB S ')) else 'V ' + inflight[3:], out[-300:]))
                 else:
                     ctx.problems.append(('harness', '%s harness crashed rc=%d %s' % (binname, rc, out[-300:])))
             rc2, out2, _ = sh('%s %s < %s' % (DRV, binname, trace), timeout=1800)
@@ -608,7 +627,7 @@ def run_colls(ctx, cases, seeds, inputs_file=None, binname='colls', prefix='C ')
             with open(trace) as f:
                 for l in f:
                     l = l.rstrip('\n')
-                    if l.startswith(prefix) or (binname == 'colls' and (l.startswith('V ') or l.startswith('HP ') or l.startswith('HZ ') or l.startswith('HB ') or l.startswith('HH '))):
+                    if l.startswith(prefix) or (binname == 'colls' and (l.startswith('V ') or l.startswith('HP ') or l.startswith('HZ ') or l.startswith('HB ') or l.startswith('HH ') or l.startswith('G '))):
                         last_case = l
                         if len(res['samples']) < 6 and l.startswith(prefix):
                             res['samples'].append(l[:200])
@@ -648,10 +667,12 @@ def colls_verdict(ctx, pid, res, conf):
         ctx.violations.append({'kind': 'colls-probe' if probe else 'colls-case', 'build': b, 'case': None if probe else case, 'what_fails': xl,
                                'signature': 'colls:%s' % re.sub(r'[0-9]+', 'N', msg)[:80],
                                'how_to_replay': 'tools/vcheck %s --replay <this file>' % pid})
-    if pid in ('C08', 'C07'):
+    if pid in ('C08', 'C07', 'C06'):
         for (b, rc, case, err) in res.get('crashes', []):
+            if pid == 'C06' and not (case.startswith('G 1 ') or case.startswith('G 2 ')):
+                continue
             ctx.violations.append({'kind': 'colls-case', 'build': b, 'case': case,
-                                   'what_fails': 'the process died (exit status %d: %s) while the crate executed this capacity history of a BumpVec / FixedBumpVec through its safe API' % (rc, err.strip()[-120:]),
+                                   'what_fails': 'the process died (exit status %d: %s) while the crate executed this history / probe case through its safe API' % (rc, err.strip()[-120:]),
                                    'signature': 'colls:crash-in-capacity-history',
                                    'how_to_replay': 'tools/vcheck %s --replay <this file>' % pid})
     # a violation that carries its own case replays exactly: report those first
@@ -754,6 +775,11 @@ def strs_verdict(ctx, res):
         msg = xl.split('::', 1)[1].strip() if '::' in xl else xl
         ctx.violations.append({'kind': 'strs-case', 'build': b, 'case': case, 'what_fails': xl,
                                'signature': 'strs:%s' % re.sub(r'[0-9]+', 'N', msg)[:80],
+                               'how_to_replay': 'tools/vcheck C09 --replay <this file>'})
+    for (b, rc, case, err) in res.get('crashes', []):
+        ctx.violations.append({'kind': 'strs-case', 'build': b, 'case': case,
+                               'what_fails': 'the process died (exit status %d: %s) while the crate executed this string operation through its safe API' % (rc, err.strip()[-120:]),
+                               'signature': 'strs:crash-in-case',
                                'how_to_replay': 'tools/vcheck C09 --replay <this file>'})
     rel = res['mism']
     if rel and not ctx.violations:
